@@ -832,6 +832,23 @@ def pure_clauses(max_n=40, max_cols=8):
                 [repr(v) for _, v in both] != [repr(v) for v in wantv]:
             return cases, {"what": "combination with repeated payloads", "items": repr(items),
                            "keys": keys[:20], "items_keys": [k for k, _ in both][:20]}
+    # item "lists" that are other sequences: tuples, ranges, arrays, an empty tuple
+    for items in ([("a", "b"), ["c", "d", "e"]], [range(3), ("x",)], [np.array([1.5, 2.5]), ["p", "q"]],
+                  [(), ["c"]], (("a", "b"), ("c",)), [("a",), ("b",), ("c", "d")]):
+        cases += 1
+        dc = DataCombination(items)
+        shape = [len(x) for x in items]
+        wantk = list(itertools.product(*[range(m) for m in shape]))
+        wantv = [tuple(items[i][k[i]] for i in range(len(shape))) for k in wantk]
+        try:
+            keys, vals, both = list(dc.keys()), list(dc.values()), list(dc.items())
+        except Exception as e:
+            return cases, {"what": "combination of non-list sequences", "items": repr(items),
+                           "error": [type(e).__name__, repr(e.args)[:200]]}
+        if [tuple(k) for k in keys] != wantk or [repr(tuple(v)) for v in vals] != [repr(v) for v in wantv] \
+                or [tuple(k) for k, _ in both] != wantk:
+            return cases, {"what": "combination of non-list sequences", "items": repr(items),
+                           "keys": [tuple(k) for k in keys][:20], "want_keys": wantk[:20]}
     # the caller keeps its lists and changes them after construction: whatever view the helper
     # takes (live or frozen), keys(), values() and items() must describe the same product
     for shape in [(2, 3), (1, 2, 2), (3,), (2, 2)]:
